@@ -238,7 +238,8 @@ def rows():
                                 lambda b: has_field(b, "unpacked_size") and has_call(b, "read_block_header")),
                  start=("some", "unpacked_size")))
     R.append(Row(9, "block padding is zero", "decode::xz::read_block",
-                 lambda t: cmp2(t, lambda a: has_call(a, "read_u8"), lambda b: b == ("const", 0))))
+                 lambda t: cmp2(t, lambda a: has_call(a, "read_u8"), lambda b: b == ("const", 0)) or
+                 (t[0] in ("ok", "okp") and has_call(t, "zero_padding") and has_call(t, "count"))))
     R.append(Row(10, "block check CRC32", "decode::xz::validate_block_check",
                  lambda t: cmp2(t, lambda a: has_call(a, "read_u32"), lambda b: has_call(b, "checksum") and has_arg(b))))
     R.append(Row(10.5, "block check CRC64", "decode::xz::validate_block_check",
@@ -251,7 +252,8 @@ def rows():
     R.append(Row(13, "index uncompressed size", "decode::xz::check_index",
                  lambda t: cmp2(t, lambda a: has_call(a, "get_multibyte"), lambda b: has_field(b, "unpacked_size"))))
     R.append(Row(14, "index padding is zero", "decode::xz::check_index",
-                 lambda t: cmp2(t, lambda a: has_call(a, "read_u8"), lambda b: b == ("const", 0))))
+                 lambda t: cmp2(t, lambda a: has_call(a, "read_u8"), lambda b: b == ("const", 0)) or
+                 (t[0] in ("ok", "okp") and has_call(t, "zero_padding") and has_call(t, "count"))))
     R.append(Row(15, "index CRC32", "decode::xz::check_index",
                  lambda t: cmp2(t, lambda a: has_call(a, "read_u32") and not has_call(a, "finalize"),
                                 lambda b: has_call(b, "finalize"))))
